@@ -9,6 +9,15 @@
 (*   Open [bytes size]   reader opened over the bytes produced so far;     *)
 (*                       bytes = ToByteArray() as a whole, size = Size()   *)
 (*   R  ret avail        matching read: returned value, Available() after  *)
+(*   Open net segs       the reader is opened over a CONNECTION carrying   *)
+(*                       the produced bytes (segs: how the transport cuts  *)
+(*                       them, informative); then                          *)
+(*   Recv want got [data]  Read calls of the reader on the connection      *)
+(*                       during the next read: window(s) of `want` bytes   *)
+(*                       offered, `got` delivered (consecutive calls that  *)
+(*                       were satisfied in full are logged as one), and    *)
+(*   R  ret taken        the matching read over the connection: returned   *)
+(*                       value, bytes the transport has handed over so far *)
 (*   Again i kept        the result of the i-th read, kept by the caller,  *)
 (*                       looked at again now (after later reads / writes)  *)
 (*   WLate op v out size a write call on the output AFTER the reader was   *)
@@ -21,46 +30,56 @@
 (*   W and LE may carry `ref`: the output of the harness's transliteration *)
 (*   of Enc/DecLE used by the pattern sweeps; it must equal the spec's.    *)
 (***************************************************************************)
-EXTENDS DataXKeep, TraceLib
+EXTENDS DataXNet, TraceLib
 
 VARIABLE l
-tvars == <<kvars, l>>
+tvars == <<nvars, l>>
 
-TraceInit == KInit /\ l = 1 /\ HwmInit
+TraceInit == NInit /\ l = 1 /\ HwmInit
 
 Step(e) == IsEv(l, e) /\ l' = l + 1
 
 TraceReset == Step("Reset") /\ buf' = <<>> /\ written' = 0 /\ prog' = <<>> /\ rpos' = 0 /\ rd' = <<>> /\ late' = <<>>
+              /\ net' = FALSE /\ taken' = 0 /\ need' = 0 /\ fill' = 0 /\ win' = <<>>
 
 TraceW == /\ Step("W")
           /\ LET e == Trace[l] IN
-               /\ KW(e.op, e.v)
+               /\ NW(e.op, e.v)
                /\ (Has(e, "out") => e.out = SubSeq(buf', Len(buf) + 1, Len(buf')))
                                                 \* byte for byte the reference encoder (buf' = buf \o Enc(op, v))
                /\ (Has(e, "size") => e.size = written')         \* Size() = bytes produced
                /\ (Has(e, "ref") => e.ref = EncFor(e.op, e.v))  \* the sweep's transliteration agrees with the spec
 
-TraceOpen == /\ Step("Open") /\ KOpen
+TraceOpen == /\ Step("Open")
              /\ LET e == Trace[l] IN
+                  /\ (IF Has(e, "net") THEN NOpenNet ELSE NOpenBuf)
                   /\ (Has(e, "bytes") => e.bytes = buf)
                   /\ (Has(e, "size") => e.size = written)
 
 TraceR == /\ Step("R")
-          /\ KR
           /\ LET e == Trace[l] IN
+               /\ IF Has(e, "taken")
+                  THEN NRNet /\ e.taken = taken       \* over a connection: exactly the bytes up to the end of the element
+                  ELSE NRBuf /\ e.avail = Len(buf) - (rpos' - 1)
                /\ e.ret = rd'[Len(rd')]
-               /\ e.avail = Len(buf) - (rpos' - 1)
+
+\* Read calls of the reader on the connection: never beyond the element being read; what the transport
+\* delivered are the next bytes of the stream (the harness's own connection: a sanity binding)
+TraceRecv == /\ Step("Recv")
+             /\ LET e == Trace[l] IN
+                  /\ Recv(e.want, e.got)
+                  /\ (Has(e, "data") => e.data = SubSeq(buf, taken + 1, taken + e.got))
 
 \* a kept result is the value that was read, whatever happened since
 TraceAgain == /\ Step("Again")
               /\ LET e == Trace[l] IN
                    /\ e.i \in 1..Len(rd)
                    /\ e.kept = Kept(e.i)
-              /\ UNCHANGED kvars
+              /\ UNCHANGED nvars
 
 TraceWLate == /\ Step("WLate")
               /\ LET e == Trace[l] IN
-                   /\ WLate(e.op, e.v)
+                   /\ NWLate(e.op, e.v)
                    /\ e.out = SubSeq(late', Len(late) + 1, Len(late'))
                    /\ e.size = written + Len(late')
 
@@ -69,14 +88,14 @@ TraceEnd == /\ Step("End")
             /\ LET e == Trace[l] IN
                  /\ (Has(e, "obytes") => e.obytes = OutBytes)
                  /\ (Has(e, "osize") => e.osize = OutSize)
-            /\ UNCHANGED kvars
+            /\ UNCHANGED nvars
 
 TraceLE == /\ Step("LE")
            /\ LET e == Trace[l] IN
                 /\ Len(e.in) = LEWidth[e.op]
                 /\ e.ret = DecLE(e.op, e.in)
                 /\ (Has(e, "ref") => e.ref = DecLE(e.op, e.in))
-           /\ UNCHANGED kvars
+           /\ UNCHANGED nvars
 
 \* the static helpers ToBytesX / ToX on one value: same bytes, same value back
 TraceStatic == /\ Step("Static")
@@ -86,14 +105,14 @@ TraceStatic == /\ Step("Static")
                     /\ Dec(e.op, e.out, 1).ok
                     /\ e.back = Dec(e.op, e.out, 1).v
                     /\ e.back = Canon(e.op, e.v)
-               /\ UNCHANGED kvars
+               /\ UNCHANGED nvars
 
 \* the slice a static helper returned earlier is still the encoding of its value
 TraceSKept == /\ Step("SKept")
               /\ LET e == Trace[l] IN
                    /\ InRange(e.op, e.v)
                    /\ e.kept = Enc(e.op, e.v)
-              /\ UNCHANGED kvars
+              /\ UNCHANGED nvars
 
 \* SetBytesX(before, off, v): the encoding at off, every other byte as it was
 TraceSetAt == /\ Step("SetAt")
@@ -104,12 +123,12 @@ TraceSetAt == /\ Step("SetAt")
                    /\ e.after = [i \in 1..Len(e.before) |->
                                    IF i > e.off /\ i <= e.off + w THEN Enc(e.op, e.v)[i - e.off] ELSE e.before[i]]
                    /\ (Has(e, "ret") => e.ret = e.after)      \* the slice handed back is the buffer
-              /\ UNCHANGED kvars
+              /\ UNCHANGED nvars
 
 \* every invariant of DataX is re-evaluated on the state after each event
-InvAll == SizeOK /\ ReadBack /\ ExactConsumption /\ NoStuck
+InvAll == SizeOK /\ ReadBack /\ ExactConsumption /\ NoStuck /\ Assembled /\ TakenOK /\ NetComplete
 
-TraceNext == (TraceReset \/ TraceW \/ TraceOpen \/ TraceR \/ TraceAgain \/ TraceWLate \/ TraceEnd
+TraceNext == (TraceReset \/ TraceW \/ TraceOpen \/ TraceR \/ TraceRecv \/ TraceAgain \/ TraceWLate \/ TraceEnd
                 \/ TraceLE \/ TraceStatic \/ TraceSKept \/ TraceSetAt) /\ InvAll'
 
 TraceSpec == TraceInit /\ [][TraceNext]_tvars
